@@ -22,7 +22,7 @@ def main():
         sd = os.path.join(V, "seeded", d)
         if not os.path.isfile(os.path.join(sd, "patch.diff")):
             continue
-        if only and d not in only and d.split("-")[0] not in only:
+        if only and d not in only and d.split("-")[0] not in only and d[:3] not in only:
             continue
         meta = json.load(open(os.path.join(sd, "meta.json")))
         if subprocess.run(["git", "-C", "/repo", "apply", os.path.join(sd, "patch.diff")]).returncode != 0:
@@ -37,7 +37,7 @@ def main():
             subprocess.run(["git", "-C", "/repo", "checkout", "--", "."])
         det = {pid: keys for pid, rc, keys in res if rc == 1}
         broken = [pid for pid, rc, keys in res if rc not in (0, 1)]
-        own = d.split("-")[0]
+        own = d[:3]  # C01b-2 is a second-round seed of C01
         meta["detection"] = {"detected_by_own_property_check": own in det, "checks_reporting": det, "checks_broken": broken}
         json.dump(meta, open(os.path.join(sd, "meta.json"), "w"), indent=1)
         rows.append((d, own in det, det))
